@@ -281,10 +281,10 @@ Record TraceInfo : Type := mkTI {
 Definition TraceInfo_new_multi_segment (main aux rands length_ : Z) (meta : bytes) : Result TraceInfo :=
   assert_ (length_ >=? 8) (assert_ (is_pow2 length_) (assert_ (len meta <=? 65535) (
   assert_ (main >? 0) (
-  (* main_segment_width + aux_segment_width: overflow-checked in debug builds *)
-  assert_ (main + aux <=? usize_max) (assert_ (main + aux <=? 255) (
+  (* main_segment_width.saturating_add(aux_segment_width) <= MAX_TRACE_WIDTH *)
+  assert_ (Z.min (main + aux) usize_max <=? 255) (
   assert_ (if aux =? 0 then rands =? 0 else true) (assert_ (rands <=? 255) (
-  Ok (mkTI main aux rands length_ meta))))))))).
+  Ok (mkTI main aux rands length_ meta)))))))).
 Definition TraceInfo_with_meta (width length_ : Z) (meta : bytes) : Result TraceInfo :=
   assert_ (width >? 0) (TraceInfo_new_multi_segment width 0 0 length_ meta).
 Definition TraceInfo_new (width length_ : Z) : Result TraceInfo := TraceInfo_with_meta width length_ [].
